@@ -18,7 +18,7 @@ model matching (any optimal matching is acceptable); they are judged
 import math
 from fractions import Fraction as Fr
 
-from .. import core
+from .. import core, history
 from . import c01, c02
 
 PID = "C06"
@@ -34,10 +34,23 @@ RULE = ("seeded generator shared with C01: exact family (coordinates (k/4)*2^s) 
         "one diagram alone next to the block as dgm1 and as dgm2, the other side 0-7 points or about B/2) / "
         "{16,..,128} (thorough, 56 pairs), exact quarter grid, narrow half-integer grid (many ties) or random doubles, "
         "half of the smaller diagram moved copies of points of the other, now and then an infinite bar or a "
-        "diagonal point; every batch under PYTHONHASHSEED 0,1,2; both distances are "
+        "diagonal point; plus class xcols (24 quick / 300 thorough): diagrams of the shared classes with 1-3 additional "
+        "columns after (birth, death) - flavours const (one value everywhere, handed to both distances), side, index, "
+        "mult, big, near (differ between the points of a pair: bottleneck only, wasserstein gets the two-column "
+        "diagrams) - as array / list / tuple / Fortran / read-only / strided view, the spec being evaluated on the "
+        "(birth, death) columns; plus call histories (harness/history.py; 15 quick / 150 thorough, 5-7 calls each, every "
+        "history in its own forked interpreter, every kind in every run): again (one pair on the same objects, on fresh "
+        "equal copies, exchanged), pairwise (pairs over a pool of 3-5 diagrams incl. a diagram against itself, first pairs "
+        "asked again), nearby (a diagram and three almost-equal variants of it - points exchanged, deaths exchanged, one "
+        "grid step, sc*2^-20..2^-40, last / first point replaced - against one partner, on either side), slot (the "
+        "caller's buffer overwritten in place between calls), fault (a malformed argument, or non-finite deaths while "
+        "warnings are errors, between clean calls); a third of the pools carry extra columns; in histories and xcols "
+        "cases matching=True is called before or after matching=False, and after EVERY call the values are copied out and "
+        "the returned objects are overwritten in place (history.scribble) - every call of a history must satisfy the "
+        "predicate; every batch under PYTHONHASHSEED 0,1,2; both distances are "
         "called with matching=False and matching=True. A case is non-trivial when both calls succeed and either one of "
         "the two returned matchings contains a cross pairing and a diagonal pairing, or an empty-diagram / "
-        "infinite-death branch is exercised; distinct = distinct JSON input")
+        "infinite-death branch is exercised; a history when at least two of its calls are; distinct = distinct JSON input")
 TRUSTED_BASE = [
     "Coq 8.16.1 kernel, vm_compute (no native_compute)",
     "bottleneck half: closed under the global context; Wasserstein half: stdlib axioms of the classical reals "
@@ -45,11 +58,16 @@ TRUSTED_BASE = [
     "hand-written models Model/BneckM.v (bottleneck.py lines 50-135) and Model/WassM.v (wasserstein.py lines 46-110)",
     "hypotheses on external code: HopcroftKarp returns a maximum matching; linear_sum_assignment returns an optimal "
     "assignment (both monitored on every real call by the C01 / C02 runners reused here)",
-    "harness: generator, float->exact-rational printer, verdict parser; the certificate predicate in Python",
+    "harness: generator, float->exact-rational printer, verdict parser; the certificate predicate in Python; "
+    "call histories (harness/history.py) and extra-column cases run through this module's own runner (no monitor of "
+    "the external routines there): each call judged by the same predicate and the same Coq checkers, nothing recorded",
 ]
 ASSUMPTIONS = [
     "numpy semantics of the row re-indexing (boolean masks, fancy indexing) are as modelled",
     "diagrams have birth <= death (the property speaks of persistence diagrams)",
+    "additional columns after (birth, death): the bottleneck cost rule reads (birth, death) only (its docstring: other "
+    "columns are allowed); persim.wasserstein's point-to-point cost reads every column, so it is given extra columns "
+    "only when they are one constant row on every point of two non-empty diagrams (they then cancel)",
     "bottleneck exact family: every float operation is exact on the dyadic grid (costs compared exactly); "
     "tolerance family and all Wasserstein costs: rounding bounded by the stated tolerances, not proved",
 ]
@@ -153,6 +171,200 @@ def _sized_cases(rng, tier):
     return out
 
 
+# ---- additional columns after (birth, death) ----------------------------------------------------
+# Both docstrings allow "other coordinate columns"; the bottleneck cost rule reads (birth, death) only.  An
+# `xcols` case carries, beside S and T (the (birth, death) points the specification is evaluated on), the
+# rows of k extra columns per diagram (xS, xT).  Flavours of the extra columns:
+#   const : one value everywhere (a homology-dimension column) - handed to BOTH distances
+#   side  : constant within a diagram, different between the two (a "which diagram" label)
+#   index : the row number (a generator index)          mult : small integers (multiplicities)
+#   big   : values far larger than the bars             near : the birth or death column plus a small offset
+# Anything but `const` differs between the points of a pair, and persim.wasserstein's point-to-point cost
+# reads every column, so those go to the bottleneck only (wasserstein gets the two-column diagrams).
+XCOL_FLAVOURS = ("const", "const", "side", "index", "mult", "mult", "big", "near")
+XCOL_BASES = ("generic", "generic", "repeated", "ties", "permuted", "permuted", "diagonal", "inf", "empty_side", "tol", "near_tie")
+OWN_REPS = ("array", "array", "array", "list", "tuple", "fortran", "readonly", "view")
+
+
+def _xrows(rng, P, flavour, k, which):
+    rows = []
+    for i, (b, d) in enumerate(P):
+        if flavour == "const":
+            r = [1.0] * k
+        elif flavour == "side":
+            r = [float(which + c) for c in range(k)]
+        elif flavour == "index":
+            r = [float(i + c) for c in range(k)]
+        elif flavour == "mult":
+            r = [float(rng.randint(0, 4)) for _ in range(k)]
+        elif flavour == "big":
+            r = [float(rng.randint(-4000, 4000)) / 4.0 for _ in range(k)]
+        else:           # near
+            r = [float(b) + rng.choice([-0.5, 0.25, 1.0, 3.0]) for _ in range(k)]
+        rows.append(r)
+    return rows
+
+
+def _xcols_case(rng, maxn, base=None, flavour=None):
+    c = c01._gen_case(rng, base or rng.choice(XCOL_BASES), maxn)
+    flavour = flavour or rng.choice(XCOL_FLAVOURS)
+    k = rng.choice([1, 1, 1, 2, 3])
+    return {"cls": "xcols", "own": True, "family": c["family"], "S": c["S"], "T": c["T"],
+            "xS": _xrows(rng, c["S"], flavour, k, 0), "xT": _xrows(rng, c["T"], flavour, k, 1),
+            "xw": flavour == "const", "xflavour": flavour, "rep": rng.choice(OWN_REPS),
+            "order": rng.choice(["FM", "MF"])}
+
+
+# ---- call histories ------------------------------------------------------------------------------
+# (harness/history.py)  All calls of one history run in one interpreter (a forked copy of the runner, so that a
+# history's outcome depends on its own steps only).  Equal-valued diagrams of different steps are THE SAME
+# objects unless a step asks for a fresh copy; after every single call the values are copied out and whatever
+# persim returned is overwritten in place (history.scribble): the caller owns what it got back, so a result
+# cache that hands out its stored array, or a view of internal state, shows in a later call.
+VARIANTS = ("swap", "repair", "grid", "tiny", "tail", "head")
+
+
+def _variant(rng, P, sc, fam, mode=None):
+    """An almost-equal diagram of the same shape.  swap: two points exchanged (same multiset, other indices);
+    repair: two points exchange their deaths (same column sums); grid / tiny: one death moved by a grid step / by
+    sc*2^-20..2^-40 (exactly representable); tail / head: the last / first point replaced."""
+    Q = [list(p) for p in P]
+    fin = [i for i, p in enumerate(Q) if p[1] != "inf"]
+    if not fin:
+        return Q + [[0.0, sc]]
+    mode = mode or rng.choice(VARIANTS)
+    if mode in ("swap", "repair") and len(fin) >= 2:
+        pairs = [(i, j) for i in fin for j in fin if i < j and Q[i] != Q[j]]
+        rng.shuffle(pairs)
+        for i, j in pairs:
+            if mode == "swap":
+                Q[i], Q[j] = Q[j], Q[i]
+                return Q
+            if Q[i][1] != Q[j][1] and Q[i][0] <= Q[j][1] and Q[j][0] <= Q[i][1]:
+                Q[i][1], Q[j][1] = Q[j][1], Q[i][1]
+                return Q
+    if mode in ("tail", "head"):
+        i = fin[-1] if mode == "tail" else fin[0]
+        b = Q[i][0] + rng.choice([-2, -1, 1, 2]) * sc / 4.0
+        Q[i] = [b, b + rng.randint(0, 8) * sc / 4.0]
+        if Q != P:
+            return Q
+    i = rng.choice(fin)
+    Q[i][1] = Q[i][1] + (sc / 4.0 if mode != "tiny" else sc * 2.0 ** -rng.choice([20, 30, 40]))
+    return Q
+
+
+def _pool(rng):
+    fam = "tol" if rng.random() < 0.2 else "exact"
+    sc = 2.0 ** rng.randint(-3, 3)
+    if fam == "tol":
+        def rp():
+            b = rng.uniform(-2, 5)
+            return [b, b + rng.choice([rng.uniform(0, 3), rng.uniform(0, 0.05)])]
+        pool = [[rp() for _ in range(rng.randint(1, 5))] for _ in range(rng.randint(2, 3))]
+        if rng.random() < 0.4:
+            pool.append([])
+    else:
+        pool = [c01._side(rng, rng.choice(c01.SIDE_KINDS), sc) for _ in range(rng.randint(1, 2))]
+        pool += [c01._dgm(rng, rng.randint(1, 5), sc) for _ in range(rng.randint(1, 2))]
+        if rng.random() < 0.5:
+            pool.append(c01._dgm(rng, rng.randint(2, 4), sc, krange=(0, 4), maxlen=4))     # many equal costs
+    base = rng.choice([P for P in pool if P] or pool)
+    pool.append(_variant(rng, base, sc, fam))
+    rng.shuffle(pool)
+    return fam, sc, pool
+
+
+def _histories(rng, n):
+    """Kinds
+      again    : one pair asked for again and again - on the same objects, on fresh equal-valued copies, with the
+                 arguments exchanged, matching=True before / after matching=False
+      pairwise : ordered pairs over a pool of 3-5 diagrams (one of them an almost-equal variant of another,
+                 one pair being a diagram against itself), the first pairs asked again at the end
+      nearby   : a diagram P, two or three almost-equal variants of it (VARIANTS) and another diagram Q:
+                 (P,Q), (V1,Q), (V2,Q), (P,Q), (Q,V1), (Q,P), (V3,Q) - equal shapes, equal sums, equal first or last
+                 points, differences far below single precision
+      slot     : the caller's own buffer overwritten in place between calls (same object, new values, and back)
+      fault    : a call that raises half-way (malformed argument; or non-finite deaths while warnings are errors)
+                 between clean calls on the same objects
+    A pool either has no extra columns or every diagram of it carries k of them (see xcols)."""
+    hs = []
+    kinds = ["again", "pairwise", "nearby", "slot", "fault"]
+    off = rng.randrange(5)
+    for h in range(n):
+        kind = kinds[(h + off) % 5]          # every kind in every run
+        fam, sc, pool = _pool(rng)
+        k = rng.choice([0, 0, 0, 1, 2]) if kind != "slot" else 0
+        xfl = rng.choice(XCOL_FLAVOURS)
+        xs = [(_xrows(rng, P, xfl, k, w) if k else None) for w, P in enumerate(pool)]
+        reps = [rng.choice(OWN_REPS) for _ in pool]
+        K = len(pool)
+
+        def st(i, j, **kw):
+            c = {"cls": "step", "own": True, "family": fam, "S": pool[i], "T": pool[j], "repS": reps[i], "repT": reps[j],
+                 "order": rng.choice(["FM", "MF"])}
+            if k:
+                c["xS"], c["xT"], c["xw"], c["xflavour"] = xs[i], xs[j], xfl == "const", xfl
+            c.update(kw)
+            return c
+        i, j = rng.randrange(K), rng.randrange(K)
+        if kind == "again":
+            steps = [st(i, j), st(i, j), st(i, j, fresh=[True, True]), st(j, i), st(i, j, fresh=[rng.random() < 0.5, False]),
+                     st(rng.randrange(K), j)]
+        elif kind == "pairwise":
+            pairs = [(a, b) for a in range(K) for b in range(K)]
+            rng.shuffle(pairs)
+            pairs = pairs[:4]
+            a = rng.randrange(K)
+            pairs.insert(rng.randint(1, len(pairs)), (a, a))
+            steps = [st(a, b) for a, b in pairs] + [st(*pairs[0]), st(*pairs[1], fresh=[True, True])]
+        elif kind == "nearby":
+            cand = [a for a in range(K) if len(c01.finite_points(pool[a])) >= 2] or list(range(K))
+            i = rng.choice(cand)
+            modes = rng.sample(VARIANTS, 3)
+            for md in modes:
+                pool.append(_variant(rng, pool[i], sc, fam, md))
+                xs.append(_xrows(rng, pool[-1], xfl, k, i) if k else None)
+                reps.append(reps[i])
+            v1, v2, v3 = K, K + 1, K + 2
+            steps = [st(i, j), st(v1, j), st(v2, j), st(i, j), st(j, v1), st(j, i), st(v3, j)]
+        elif kind == "slot":
+            m = rng.randint(1, 4)
+            if fam == "tol":
+                vals = [[[b, b + rng.uniform(0, 3)] for b in (rng.uniform(-2, 5) for _ in range(m))] for _ in range(2)]
+            else:
+                vals = [c01._dgm(rng, m, sc) for _ in range(2)]
+            vals.append(_variant(rng, vals[0], sc, fam))
+            vals = [v for v in vals if len(v) == m and not c01._has_inf(v)]
+            side = rng.choice([0, 1])
+            order = [0, 1, 0, 2 % len(vals), 1]
+
+            def sl(v):
+                c = st(j, j, order=rng.choice(["FM", "MF"]))
+                c["ST"[side]] = vals[v]
+                c["rep" + "ST"[side]] = "array"
+                c["slots"] = ["buf", None] if side == 0 else [None, "buf"]
+                return c
+            steps = [sl(v) for v in order]
+        else:
+            P = pool[i]
+            if rng.random() < 0.35:
+                # non-finite deaths while the caller runs with warnings as errors: the call raises after part of the work
+                Pi = [list(p) for p in P] + [[0.0, "inf"]]
+                f = st(i, j, fault=True, warn_error=True)
+                f["S"] = Pi
+                if k:
+                    f["xS"] = (xs[i] or []) + [[0.0] * k]
+            else:
+                bad = rng.choice([[[0.0, 1.0], [2.0]], [0.0, 1.0, 2.0], [["a", "b"]], None, [[0.0], [1.0]], 3.5,
+                                  [[0.0, 1.0], [2.0, None]]])
+                f = st(i, j, fault=True)
+                f["raw" + rng.choice("ST")] = bad
+            steps = [st(i, j), f, st(i, j), st(j, i), st(rng.randrange(K), rng.randrange(K))]
+        hs.append(history.make(kind, steps))
+    return hs
+
+
 def generate(rng, tier):
     n_cases, maxn = (200, 6) if tier == "quick" else (2000, 16)
     cases = [_dtype_case(rng, 5) for _ in range(24 if tier == "quick" else 240)]
@@ -164,12 +376,24 @@ def generate(rng, tier):
         cases.append(c01._gen_case(rng, cls, mx))
     # last, so that the stream of the classes above is the one the earlier evidence was produced with
     cases += _sized_cases(rng, tier)
+    quick = tier == "quick"
+    cases += [_xcols_case(rng, 5 if quick else 8) for _ in range(24 if quick else 300)]
+    cases += _histories(rng, 15 if quick else 150)
     return cases
 
 
 def search_generate(rng, n):
-    return [(_dtype_case(rng, 3) if i % 6 == 5 else c01._gen_case(rng, rng.choice(c01.CLASSES), rng.choice([1, 2, 3, 4])))
-            for i in range(n)]
+    out = []
+    for i in range(n):
+        if i % 6 == 5:
+            out.append(_dtype_case(rng, 3))
+        elif i % 8 == 3:
+            out.append(_xcols_case(rng, rng.choice([2, 3, 4])))
+        elif i % 16 == 7:
+            out += _histories(rng, 1)
+        else:
+            out.append(c01._gen_case(rng, rng.choice(c01.CLASSES), rng.choice([1, 2, 3, 4])))
+    return out
 
 
 def corpus():
@@ -211,7 +435,135 @@ def _w_case(c):
     return w
 
 
-def impl_run(cases):
+def _is_own(c):
+    return history.is_hist(c) or bool(c.get("own"))
+
+
+OWN_TIMEOUT_S = 8.0
+
+
+class _OwnTimeout(BaseException):
+    pass
+
+
+def _on_alarm(signum, frame):
+    raise _OwnTimeout()
+
+
+def _mk(P, X, rep):
+    """The diagram P (with the rows X of extra columns, if any) in the container / layout `rep`."""
+    import numpy as np
+    rows = [[float(b), float("inf") if d == "inf" else float(d)] + ([float(x) for x in X[i]] if X else [])
+            for i, (b, d) in enumerate(P)]
+    if rep == "list":
+        return rows
+    if rep == "tuple":
+        return tuple(tuple(r) for r in rows)
+    w = len(rows[0]) if rows else 2
+    A = np.array(rows, dtype=float).reshape(-1, w)
+    if rep == "fortran":
+        return np.asfortranarray(A)
+    if rep == "view":           # rows 1,3,5,.. and columns 1..w of a larger buffer
+        big = np.full((2 * A.shape[0] + 1, w + 2), 777.25)
+        big[1::2, 1:1 + w] = A
+        return big[1::2, 1:1 + w]
+    if rep == "readonly":
+        A.setflags(write=False)
+    return A
+
+
+def _x_for_wass(c):
+    """The extra columns go to wasserstein only when they cannot enter its point-to-point cost: one and the same
+    row of extra values on every point of both diagrams, and no empty side (the (0,0) stand-in has two columns)."""
+    if not c.get("xw"):
+        return False
+    fin = [[x for p, x in zip(c[k], c.get("x" + k) or []) if p[1] != "inf"] for k in ("S", "T")]
+    if not fin[0] or not fin[1] or len(fin[0]) != len(c01.finite_points(c["S"])) or len(fin[1]) != len(c01.finite_points(c["T"])):
+        return False
+    return all(x == fin[0][0] for x in fin[0] + fin[1])
+
+
+def _own_args(c, memo, wass):
+    import numpy as np
+    out = []
+    rS, rT = c.get("repS", c.get("rep", "array")), c.get("repT", c.get("rep", "array"))
+    with_x = (not wass) or _x_for_wass(c)
+    for side, (key, rep) in enumerate((("S", rS), ("T", rT))):
+        P = c[key]
+        X = c.get("x" + key) if with_x else None
+        X = X if X and len(X) == len(P) else None
+        slot = (c.get("slots") or [None, None])[side]
+        if slot is not None:
+            new = _mk(P, X, "array")
+            old = memo.get("slot:" + slot)
+            if isinstance(old, np.ndarray) and old.shape == new.shape and old.flags.writeable:
+                if not np.array_equal(old, new):
+                    old[...] = new
+                out.append(old)
+            else:
+                memo["slot:" + slot] = new
+                out.append(new)
+        elif (c.get("fresh") or [False, False])[side]:
+            out.append(_mk(P, X, rep))
+        else:
+            out.append(history.intern(memo, ["dgm", P, X, rep], lambda: _mk(P, X, rep)))
+    if c.get("fault"):
+        if "rawS" in c:
+            out[0] = c["rawS"]
+        if "rawT" in c:
+            out[1] = c["rawT"]
+    return out
+
+
+def _own_half(fn, A, B, c):
+    """fn(A, B) and fn(A, B, matching=True) in the order the case asks for; after each call the values are copied
+    out and everything persim returned is overwritten in place."""
+    import warnings
+    import numpy as np
+    o = {}
+    try:
+        with warnings.catch_warnings():
+            warnings.simplefilter("error" if c.get("warn_error") else "ignore")
+            for flag in c.get("order", "FM"):
+                if flag == "F":
+                    r = fn(A, B)
+                    o["dist"] = float(r)
+                else:
+                    r = fn(A, B, matching=True)
+                    d1, rows = r
+                    o["dist_m"] = float(d1)
+                    o["rows"] = [[float(x) for x in row] for row in np.asarray(rows, dtype=float).reshape(-1, 3)]
+                history.scribble(r)
+                del r
+    except Exception as e:  # noqa  (_OwnTimeout is not an Exception: it ends the whole case)
+        return {"error": type(e).__name__, "msg": str(e)[:300]}
+    return o
+
+
+def _own_call(c, memo=None):
+    """One case of the module's own runner (call histories, extra columns): both distances on the case's diagrams."""
+    import signal
+    import sys
+    memo = {} if memo is None else memo
+    bfun = sys.modules["persim.bottleneck"].bottleneck
+    wfun = sys.modules["persim.wasserstein"].wasserstein
+    signal.signal(signal.SIGALRM, _on_alarm)
+    signal.setitimer(signal.ITIMER_REAL, OWN_TIMEOUT_S)
+    try:
+        Ab, Bb = _own_args(c, memo, False)
+        Aw, Bw = _own_args(c, memo, True)
+        return {"b": _own_half(bfun, Ab, Bb, c), "w": _own_half(wfun, Aw, Bw, c)}
+    except _OwnTimeout:
+        e = {"error": "Timeout", "msg": "no result within %g s (the search loop did not terminate)" % OWN_TIMEOUT_S}
+        return {"b": e, "w": e}
+    except Exception as e:  # noqa
+        e = {"error": type(e).__name__, "msg": str(e)[:300]}
+        return {"b": e, "w": e}
+    finally:
+        signal.setitimer(signal.ITIMER_REAL, 0)
+
+
+def _impl_plain(cases):
     """Both distances, with and without the matching (the C01 / C02 runners: they also monitor the
     external routines and guard against a non-terminating search).  Cases of class dtype hand the
     diagrams over as arrays of the requested dtype (to both functions)."""
@@ -239,6 +591,23 @@ def impl_run(cases):
     return [{"b": b, "w": w} for b, w in zip(ob, ow)]
 
 
+def impl_run(cases):
+    """Call histories and extra-column cases go through this module's own runner (_own_call), every history in a
+    forked copy of the interpreter as it is before the first call; all other cases through the C01 / C02 runners."""
+    import persim  # noqa: F401
+    outs = [None] * len(cases)
+    for i, c in enumerate(cases):
+        if history.is_hist(c):
+            outs[i] = c02._isolated(lambda c=c: history.run(c, _own_call))
+        elif _is_own(c):
+            outs[i] = c02._isolated(lambda c=c: _own_call(c))
+    plain = [i for i, c in enumerate(cases) if not _is_own(c)]
+    if plain:
+        for i, o in zip(plain, _impl_plain([cases[i] for i in plain])):
+            outs[i] = o
+    return outs
+
+
 # ------------------------------------------------------------------------------------ the property text
 def _tol_b(c):
     return c01._tol(c)
@@ -249,11 +618,15 @@ def _rows_ok_shape(rows):
 
 
 def predicate(c, o):
+    if history.is_hist(c):
+        return history.predicate(c, o, predicate)
+    if "b" not in o or "w" not in o:
+        return False, "error: %s: %s" % (o.get("error"), o.get("msg"))
     b, w = o["b"], o["w"]
     # ---- bottleneck
     if "error" in b:
         return False, "bottleneck-error: %s: %s" % (b["error"], b.get("msg"))
-    if not _rows_ok_shape(b.get("rows")) or b.get("dist_m") is None:
+    if not _rows_ok_shape(b.get("rows")) or b.get("dist_m") is None or b.get("dist") is None:
         return False, "bottleneck-error: matching=True failed: %s" % (b.get("rows"),)
     if not (math.isfinite(b["dist"]) and math.isfinite(b["dist_m"])):
         return False, "bottleneck-flag: distances %r / %r are not finite" % (b["dist"], b["dist_m"])
@@ -267,6 +640,8 @@ def predicate(c, o):
     # ---- Wasserstein
     if "error" in w:
         return False, "wasserstein-error: %s: %s" % (w["error"], w.get("msg"))
+    if not _rows_ok_shape(w.get("rows")) or w.get("dist") is None or w.get("dist_m") is None:
+        return False, "wasserstein-error: incomplete output %s" % (str(w)[:120],)
     if not (math.isfinite(w["dist"]) and math.isfinite(w["dist_m"])):
         return False, "wasserstein-flag: distances %r / %r are not finite" % (w["dist"], w["dist_m"])
     tolw = c02.tol_of(_w_case(c))
@@ -281,6 +656,10 @@ def predicate(c, o):
 
 
 def nontrivial(c, o):
+    if history.is_hist(c):
+        return history.nontrivial(c, o, nontrivial)
+    if "b" not in o or "w" not in o:
+        return False
     b, w = o["b"], o["w"]
     if "error" in b or "error" in w or not _rows_ok_shape(b.get("rows")):
         return False
@@ -305,6 +684,44 @@ def coq_jobs(cases, outs):
 
 
 def coq_judge(cases, outs, results):
+    """One verdict per case; a call history gets the worst verdict of its (non-fault) steps."""
+    units, owner = [], []
+    for i, (c, o) in enumerate(zip(cases, outs)):
+        if history.is_hist(c):
+            for u in history.flatten([c], [o]):
+                units.append(u)
+                owner.append(i)
+        else:
+            units.append((c, o))
+            owner.append(i)
+    uv = _judge_units([u[0] for u in units], [_norm_out(u[1]) for u in units])
+    per = {}
+    for i, v in zip(owner, uv):
+        per.setdefault(i, []).append(v)
+    verdicts = []
+    for i, c in enumerate(cases):
+        vs = per.get(i, [])
+        if not history.is_hist(c):
+            verdicts.append(vs[0])
+            continue
+        bad = [v for v in vs if v.startswith("disagree")] or [v for v in vs if v.startswith("skip")]
+        if not vs:
+            verdicts.append("disagree:history produced no step outputs")
+        elif bad:
+            verdicts.append(bad[0].replace(":", ":history step: ", 1))
+        else:
+            verdicts.append("agree")
+    return verdicts
+
+
+def _norm_out(o):
+    if isinstance(o, dict) and "b" in o and "w" in o:
+        return o
+    e = {"error": (o or {}).get("error", "harness"), "msg": (o or {}).get("msg")} if isinstance(o, dict) else {"error": "harness"}
+    return {"b": e, "w": e}
+
+
+def _judge_units(cases, outs):
     n = len(cases)
     vb = ["disagree:bottleneck rows not expressible (%s)" % str(o["b"])[:100] for o in outs]
     vw = ["disagree:wasserstein rows not expressible (%s)" % str(o["w"])[:100] for o in outs]
@@ -349,7 +766,36 @@ def finding_of(c, o, detail):
 
 
 # ------------------------------------------------------------------------------------ shrinking
+def _drop(c, key, i, w):
+    """c without the points i..i+w-1 of one diagram (and their extra-column rows); None when that would empty a
+    diagram that carries extra columns (an empty diagram has no columns: a different situation)."""
+    if c.get("x" + key) and len(c[key]) <= w:
+        return None
+    d = dict(c)
+    d[key] = c[key][:i] + c[key][i + w:]
+    x = c.get("x" + key)
+    if x and len(x) == len(c[key]):
+        d["x" + key] = x[:i] + x[i + w:]
+    return d
+
+
 def shrink_candidates(c):
+    if history.is_hist(c):
+        yield from history.shrink(c)
+        if len(c["seq"]) == 1 and not c["seq"][0].get("fault"):
+            yield c["seq"][0]          # one step left: not a history effect, report the single call
+        # plainer steps: no extra columns, default order, no fresh copies
+        for k in ("xS", "order", "fresh", "repS"):
+            if any(k in s for s in c["seq"]):
+                d = dict(c)
+                drop = {"xS": ("xS", "xT", "xw", "xflavour"), "repS": ("repS", "repT")}.get(k, (k,))
+                d["seq"] = [{a: b for a, b in s.items() if a not in drop or (s.get("fault") and a in ("xS", "xT"))}
+                            for s in c["seq"]]
+                yield d
+        return
+    if c.get("xS") is not None or c.get("xT") is not None:
+        # without the extra columns: then it is not an effect of them
+        yield {k: v for k, v in c.items() if k not in ("xS", "xT", "xw", "xflavour")}
     # large diagrams first lose blocks of points (halves, quarters, ...), then single points: a failure that
     # needs a minimum size ends at that size after a logarithmic number of runs plus one scan
     for key in ("S", "T"):
@@ -357,21 +803,33 @@ def shrink_candidates(c):
         w = n // 2
         while w >= 2:
             for i in range(0, n, w):
-                d = dict(c)
-                d[key] = c[key][:i] + c[key][i + w:]
-                yield d
+                d = _drop(c, key, i, w)
+                if d is not None:
+                    yield d
             w //= 2
     for key in ("S", "T"):
         if len(c[key]) > 16:        # small blocks have been tried; a point-by-point scan of a large diagram
             continue                # costs one interpreter start per point and gains little
         for i in range(len(c[key])):
-            d = dict(c)
-            d[key] = c[key][:i] + c[key][i + 1:]
-            yield d
-    if c.get("rep") == "list":
-        d = dict(c)
+            d = _drop(c, key, i, 1)
+            if d is not None:
+                yield d
+    if c.get("rep", "array") != "array" or c.get("repS") or c.get("repT"):
+        d = {k: v for k, v in c.items() if k not in ("repS", "repT")}
         d["rep"] = "array"
         yield d
+    if c.get("own") and c.get("order", "FM") != "FM":
+        d = dict(c)
+        d["order"] = "FM"
+        yield d
+    for key in ("xS", "xT"):        # fewer extra columns
+        x = c.get(key)
+        if x and len(x[0]) > 1:
+            d = dict(c)
+            d["xS"] = [r[:1] for r in c.get("xS") or []]
+            d["xT"] = [r[:1] for r in c.get("xT") or []]
+            yield d
+            break
     if c.get("dtype"):
         for side in (0, 1):
             if c["dtype"][side] != "float64":
